@@ -471,13 +471,16 @@ def discharge_all(report, timeout_ms=10000, canon=True, budget_s=None):
     `unknown`), and the whole second pass respects a wall-clock budget."""
     ax = canon_axioms() if canon else []
     t0 = time.time()
+    f = solve.speed_factor()
+    timeout_ms = int(timeout_ms * f)
+    report.notes.append(f'solver budgets scaled by {f:.1f} (reference query)')
     budget_s = budget_s or max(60.0, timeout_ms / 1000 * 12)
     def hy(ob):
         return ax if (canon and mentions_canon([ob.goal] + ob.hyps)) else []
     for ob in report.obligations:
         if ob.result is not None:
             continue
-        solve.discharge(ob, extra_hyps=hy(ob), timeout_ms=(timeout_ms * 6 if ob.kind == 'lemma' else max(2000, int(timeout_ms * 0.4))))
+        solve.discharge(ob, extra_hyps=hy(ob), timeout_ms=(timeout_ms * 3 if ob.kind == 'lemma' else max(2000, int(timeout_ms * 0.4))))
     refuted = any(o.result == 'refuted' for o in report.obligations)
     t1 = time.time()
     for ob in report.obligations:
